@@ -20,7 +20,7 @@ func cmdOnlyOnce(args []string) error {
 	sig := func(class string) map[string]interface{} {
 		return map[string]interface{}{"prop": "C16", "class": class}
 	}
-	for sc := 0; sc < 6; sc++ {
+	for sc := 0; sc < 8; sc++ {
 		native := sc%2 == 0
 		w, err := NewWorld(native, nil, Concs()[0], KeyConcs()[0], R)
 		if err != nil {
@@ -49,11 +49,18 @@ func cmdOnlyOnce(args []string) error {
 			_ = gb.Interface.Store(context.Background(), ni.BuildName(), b)
 			d.instOf[ni.BuildName()] = inst
 		}
-		mk("a", 1, "ka")
-		mk("b", 1, "kb-old")
-		mk("b", 2, "kb")
-		want := []string{"ka", "kb"}
+		want := []string{}
+		if sc/2 != 3 {
+			mk("a", 1, "ka")
+			mk("b", 1, "kb-old")
+			mk("b", 2, "kb")
+			want = []string{"ka", "kb"}
+		}
 		switch sc / 2 {
+		case 3: // the bucket holds nothing but one undecodable snapshot of another instance, the own LMDB is empty
+			ni := snapshot.NameInfo{Kind: snapshot.KindSnapshot, Extension: snapshot.DefaultExtension, SyncerName: "default", InstanceID: "c", GenerationID: "GX", Timestamp: d.t0.Add(time.Second)}
+			_ = gb.Interface.Store(context.Background(), ni.BuildName(), []byte("garbage"))
+			d.instOf[ni.BuildName()] = "c"
 		case 1: // c has only an undecodable snapshot
 			ni := snapshot.NameInfo{Kind: snapshot.KindSnapshot, Extension: snapshot.DefaultExtension, SyncerName: "default", InstanceID: "c", GenerationID: "GX", Timestamp: d.t0.Add(time.Second)}
 			_ = gb.Interface.Store(context.Background(), ni.BuildName(), []byte("garbage"))
@@ -85,7 +92,7 @@ func cmdOnlyOnce(args []string) error {
 			select {
 			case syncErr = <-done:
 				finished = true
-				if time.Now().Before(hold) {
+				if time.Now().Before(hold) && sc/2 != 3 {
 					early = true
 				}
 			default:
